@@ -25,6 +25,27 @@ def main():
                              stdout=subprocess.PIPE, check=True, text=True).stdout
     cmp_res = json.loads(cmp_out)
     viol, nontriv = monitors.run_monitors(obs, ops)
+    # the same operations on the REAL application (app.NewApp: InitChain, BaseApp.BeginBlock/EndBlock/Commit, MsgServiceRouter),
+    # compared with the keeper-mode observations: validates the glue the keeper-mode harness re-implements (module order, wiring
+    # of keepers and services, genesis through the app)
+    aobs = os.path.join(d, "app.%d.jsonl" % k)
+    aops = os.path.join(d, "app-ops.%d.txt" % k)
+    app_res = {"ops": 0, "histories": 0, "mismatches": [], "sections": {}, "error": ""}
+    try:
+        subprocess.run([os.path.join(V, "harness/bin/harness"), "replay", "-app", "-in", ops, "-ops", aops, "-obs", aobs], check=True,
+                       stdout=subprocess.PIPE, stderr=subprocess.STDOUT, timeout=1500)
+        app_res = json.loads(subprocess.run([sys.executable, os.path.join(V, "tools/compare.py"), obs, aobs, "--max", "40", "--app", "--ops", ops],
+                                            stdout=subprocess.PIPE, check=True, text=True).stdout)
+        app_res["error"] = ""
+    except subprocess.CalledProcessError as ex:
+        app_res["error"] = "app-mode replay failed: %s" % ((ex.stdout or b"")[-600:] if isinstance(ex.stdout, bytes) else str(ex.stdout)[-600:])
+    except subprocess.TimeoutExpired:
+        app_res["error"] = "app-mode replay timed out"
+    for f in (aobs, aops):
+        try:
+            os.remove(f)
+        except OSError:
+            pass
     # which histories left the configuration domain of DESIGN section 5 (Model/Domain.v, evaluated by the model runner), and where
     outdom = {}
     nh = set()
@@ -39,6 +60,8 @@ def main():
            "sections": cmp_res["sections"], "mismatches": cmp_res["mismatches"],
            "violations": viol[:200], "n_violations": len(viol), "nontrivial": nontriv,
            "out_of_domain": outdom, "in_domain": len(nh) - len(outdom),
+           "app_ops": app_res.get("ops", 0), "app_histories": app_res.get("histories", 0), "app_mismatches": app_res.get("mismatches", []),
+           "app_error": app_res.get("error", ""),
            "stats": json.load(open(stats))}
     json.dump(res, open(os.path.join(d, "shard.%d.json" % k), "w"))
     os.remove(obs)
